@@ -155,11 +155,11 @@ def _gowork(dirpath):
     return os.path.join(dirpath, 'go.work')
 
 
-def build_go(tagged=True, race=False):
+def build_go(tagged=True, race=False, cgo=False):
     """build the driver (tag verif) or the plain binary from the current working tree of the repo"""
     key = repo_key()
     cover = bool(os.environ.get('VERIF_COVER'))      # tools/coverage.sh: statement coverage of the repository's sources by the checks
-    name = ('hrdriver' if tagged else 'hrbin') + ('-race' if race else '') + ('-cover' if cover else '') + '-' + key
+    name = ('hrdriver' if tagged else 'hrbin') + ('-race' if race else '') + ('-cgo' if cgo else '') + ('-cover' if cover else '') + '-' + key
     out = os.path.join(CACHE, 'bin', name)
     with Lock('gobuild'):
         if os.path.exists(out):
@@ -179,7 +179,7 @@ def build_go(tagged=True, race=False):
         env = dict(os.environ)
         env.update(GO_ENV)
         env['GOWORK'] = gw
-        if race:
+        if race or cgo:
             env['CGO_ENABLED'] = '1'
         cmd = ['go', 'build']
         if tagged:
@@ -328,7 +328,7 @@ def new_slot():
     return 1 + next(_RUN_SEQ) % (10**9 - 1)
 
 
-def run_real_binary(binary, argv, files, env_extra=None, tz='UTC', stdout_to=None, timeout=20, home_config=None, stable_dir=False, modes=None, drop_env=(), slot=None):
+def run_real_binary(binary, argv, files, env_extra=None, tz='UTC', stdout_to=None, timeout=20, home_config=None, stable_dir=False, modes=None, drop_env=(), slot=None, links=None):
     """run the untagged binary as a sub-process in a scratch directory with the given files"""
     # stable_dir: the same scratch path on every call of this process ($HOME is an input of the program: `gen` prints it)
     base = os.path.join(scratch_root(), 'real-%07d-%09d' % (os.getpid(), 0 if stable_dir else slot if slot is not None else new_slot()))
@@ -358,6 +358,8 @@ def run_real_binary(binary, argv, files, env_extra=None, tz='UTC', stdout_to=Non
             env.pop(k, None)
         for name, mode in (modes or {}).items():
             os.chmod(os.path.join(work, name), mode)
+        for name, target in (links or {}).items():
+            os.symlink(target, os.path.join(work, name) if not name.startswith('~/') else os.path.join(home, name[2:]))
         args = [binary] + [a.decode('utf-8', 'surrogateescape') if isinstance(a, bytes) else a for a in argv]
         if stdout_to == 'full':
             with open('/dev/full', 'wb') as sink:
